@@ -129,6 +129,9 @@ func init() {
 		os.Setenv("VERIF_HOOK_LOG", hookLog)
 		savedHook := config.Parsed.Media.Hook
 		config.Parsed.Media.Hook = []string{"verifwait", "%url"}
+		if B(op, "hookfails") {
+			config.Parsed.Media.Hook = []string{"verifwait", "%url", "fail"}
+		}
 		releaseHooks := func() {
 			os.WriteFile(gate, []byte("go"), 0o644)
 			time.Sleep(40 * time.Millisecond)
@@ -145,12 +148,29 @@ func init() {
 		frames := []string{}
 		expected := []int{} // the terminal height in force when each frame was drawn
 		curHeight := height
+		/* while a SetWidthHeight call is in flight a frame drawn by a loader may still have the
+		   height in force before the call: both heights are right until the call has returned */
+		prevHeight := -1
 		s := ui.NewState(width, height, func(frame string) {
 			fm.Lock()
 			frames = append(frames, frame)
-			expected = append(expected, curHeight)
+			lines := strings.Count(frame, "\n") + 1
+			if prevHeight >= 0 && lines == prevHeight {
+				expected = append(expected, prevHeight)
+			} else {
+				expected = append(expected, curHeight)
+			}
 			fm.Unlock()
 		})
+		resize := func(w, h int) {
+			fm.Lock()
+			prevHeight, curHeight = curHeight, h
+			fm.Unlock()
+			s.SetWidthHeight(w, h)
+			fm.Lock()
+			prevHeight = -1
+			fm.Unlock()
+		}
 		snaps := []any{}
 		if err := s.Subcommand("open", start); err != nil {
 			return map[string]any{"subcommanderr": true}
@@ -167,10 +187,7 @@ func init() {
 				/* a terminal resize between keys (the interface is settled here) */
 				var w, h int
 				fmt.Sscanf(k, "RESIZE %d %d", &w, &h)
-				fm.Lock()
-				curHeight = h
-				fm.Unlock()
-				s.SetWidthHeight(w, h)
+				resize(w, h)
 				if !waitSettledHeld(s) {
 					return map[string]any{"wedged": "after resize", "snaps": snaps}
 				}
@@ -187,10 +204,7 @@ func init() {
 				for _, b := range []byte(rest) {
 					s.Update(b)
 				}
-				fm.Lock()
-				curHeight = h
-				fm.Unlock()
-				s.SetWidthHeight(w, h)
+				resize(w, h)
 				atomic.StoreInt64(&simLatencyMicros, 0)
 				if !waitSettledHeld(s) {
 					return map[string]any{"wedged": "after a resize while loading", "snaps": snaps}
@@ -218,6 +232,21 @@ func init() {
 		op["keys_sub"] = keys
 		/* what the hook was started with, in order */
 		opened := []any{}
+		/* a hook started by the last keys may not have written its line yet: wait until the log
+		   has been quiet for a while */
+		lastLen, quiet := -1, 0
+		for waited := 0; waited < 1500 && quiet < 6; waited += 20 {
+			n := 0
+			if st, err := os.Stat(hookLog); err == nil {
+				n = int(st.Size())
+			}
+			if n == lastLen {
+				quiet++
+			} else {
+				quiet, lastLen = 0, n
+			}
+			time.Sleep(20 * time.Millisecond)
+		}
 		if raw, err := os.ReadFile(hookLog); err == nil {
 			for _, l := range strings.Split(strings.TrimSuffix(string(raw), "\n"), "\n") {
 				opened = append(opened, l)
@@ -507,6 +536,6 @@ func genUI(r *rand.Rand, n int, emit func(Op)) {
 				keys[k] = ":feed " + pick(r, []string{"home", "mixed", "one", "none", "unknown"}) + "\r"
 			}
 		}
-		emit(Op{"op": "ui", "routes": g.routes, "start": pick(r, starts), "keys": keys, "feeds": feeds, "width": uiW, "height": uiH})
+		emit(Op{"op": "ui", "routes": g.routes, "start": pick(r, starts), "keys": keys, "feeds": feeds, "width": uiW, "height": uiH, "hookfails": r.Intn(3) == 0})
 	}
 }
